@@ -735,6 +735,54 @@ pub fn run_scen(sc: &Scen, strat: &StratSpec, seed: u64, replay: Option<Vec<u32>
 }
 
 pub fn explore(prop: &str, seed: u64, thorough: bool, st: &mut Stats) -> Vec<Replay> {
+    if prop == "C17" && seed % 4 == 0 {
+        // big-table case
+        let bs = big::gen(seed);
+        st.scenarios += 1;
+        if st.seeds == 0 {
+            st.first_seed = seed;
+        }
+        st.seeds += 1;
+        st.runs += 1;
+        let (vs, checks) = big::run(&bs);
+        Stats::bump(&mut st.extra, "big_table_cases", 1);
+        Stats::bump(&mut st.extra, "big_table_checks", checks);
+        let distinct = {
+            let mut o: Vec<u8> = bs.reg.clone();
+            o.sort();
+            o.dedup();
+            o.len()
+        };
+        if distinct > 16 {
+            Stats::bump(&mut st.probes, "table_with_more_than_16_types", 1);
+        }
+        let dg = crate::plan::fnv(serde_json::to_string(&bs).unwrap().as_bytes());
+        crate::driver::chain(dg);
+        if distinct >= 2 {
+            st.nontrivial.insert(dg);
+        }
+        let mut found: Vec<Replay> = Vec::new();
+        for v in vs {
+            Stats::bump(&mut st.class_hits, &v.class, 1);
+            if !found.iter().any(|r| r.class == v.class) {
+                found.push(Replay {
+                    property: "C17".into(),
+                    family: "W8".into(),
+                    engine: "W".into(),
+                    mode: "big-table".into(),
+                    seed,
+                    scenario: serde_json::to_value(&bs).unwrap(),
+                    strategy: StratSpec::NoPreempt,
+                    run_seed: 0,
+                    trace: None,
+                    class: v.class.clone(),
+                    msg: v.msg.clone(),
+                    digest: dg,
+                });
+            }
+        }
+        return found;
+    }
     let sc = gen(seed, prop);
     st.scenarios += 1;
     if st.seeds == 0 {
@@ -798,7 +846,230 @@ pub fn explore(prop: &str, seed: u64, thorough: bool, st: &mut Stats) -> Vec<Rep
 }
 
 pub fn eval_replay(r: &Replay) -> EvalOut {
+    if r.mode == "big-table" {
+        let bs: big::BigScen = serde_json::from_value(r.scenario.clone()).expect("scenario");
+        let (vs, n) = big::run(&bs);
+        return EvalOut { violations: vs, digest: 0, trace: vec![], steps: n };
+    }
     let sc: Scen = serde_json::from_value(r.scenario.clone()).expect("scenario");
     let o = run_scen(&sc, &r.strategy, r.run_seed, r.trace.clone());
     EvalOut { violations: o.violations, digest: o.digest, trace: o.trace, steps: o.steps }
+}
+
+// ------------------------------------------------------------------------------------------------
+// C17, big tables: more implementing types than any inline capacity or small-table fast path
+// would hold (25, one of them zero-sized), registered in seeded order with repeats, any subset
+// present. Single task: the borrow side of the iterators is the business of the scenarios above.
+
+pub mod big {
+    use super::*;
+    use std::any::Any;
+
+    pub trait BObj {
+        fn btag2(&self) -> u8;
+        fn baddr(&self) -> usize;
+        fn bump(&mut self);
+    }
+    unsafe impl<T: BObj + 'static> shred::CastFrom<T> for dyn BObj {
+        fn cast(t: *mut T) -> *mut Self {
+            t
+        }
+    }
+    /// Address-changing cast, also for zero-sized types (byte offset).
+    pub trait BBad {
+        fn x(&self) -> u8;
+    }
+    unsafe impl<T: BBad + 'static> shred::CastFrom<T> for dyn BBad {
+        fn cast(t: *mut T) -> *mut Self {
+            (t as *mut u8).wrapping_add(8) as *mut T
+        }
+    }
+
+    pub struct TyVt {
+        pub reg: fn(&mut MetaTable<dyn BObj>),
+        pub reg_bad: fn(&mut MetaTable<dyn BBad>),
+        pub insert: fn(&mut World),
+        /// None: absent; Some(None): `get` said None; Some(Some((tag, same address)))
+        pub get: fn(&MetaTable<dyn BObj>, &World) -> Option<Option<(u8, bool)>>,
+        pub get_mut: fn(&MetaTable<dyn BObj>, &World) -> Option<Option<(u8, bool)>>,
+        pub bad_get: fn(&MetaTable<dyn BBad>, &World) -> Option<bool>,
+    }
+
+    macro_rules! bigty {
+        ($name:ident, $tag:expr, $($body:tt)*) => {
+            #[derive(Default)]
+            pub struct $name $($body)*
+            impl BObj for $name {
+                fn btag2(&self) -> u8 { $tag }
+                fn baddr(&self) -> usize { self as *const $name as usize }
+                fn bump(&mut self) {}
+            }
+            impl BBad for $name { fn x(&self) -> u8 { $tag } }
+        };
+    }
+    bigty!(M0, 0, { a: u8 });
+    bigty!(M1, 1, { a: u16 });
+    bigty!(M2, 2, { a: u32 });
+    bigty!(M3, 3, { a: u64 });
+    bigty!(M4, 4, { a: u128 });
+    bigty!(M5, 5, { a: [u8; 3] });
+    bigty!(M6, 6, { a: [u8; 17] });
+    bigty!(M7, 7, { a: [u64; 9] });
+    bigty!(M8, 8, { a: (u8, u64) });
+    bigty!(M9, 9, { a: String });
+    bigty!(M10, 10, { a: Vec<u8> });
+    bigty!(M11, 11, { a: [u16; 5] });
+    bigty!(M12, 12, { a: f64 });
+    bigty!(M13, 13, { a: [u32; 31] });
+    bigty!(M14, 14, { a: Option<u64> });
+    bigty!(M15, 15, { a: (u8, u8, u8) });
+    bigty!(M16, 16, { a: ([u8; 32], [u8; 32], u8) });
+    bigty!(M17, 17, { a: i8 });
+    bigty!(M18, 18, { a: [u64; 2] });
+    bigty!(M19, 19, { a: Box<u8> });
+    bigty!(M20, 20, { a: [u8; 7] });
+    bigty!(M21, 21, { a: (u64, u8) });
+    bigty!(M22, 22, { a: [u128; 3] });
+    bigty!(M23, 23, { a: char });
+    bigty!(MZ, 24, ;);
+
+    fn vt<T: BObj + BBad + Resource + Default + Any>() -> TyVt {
+        TyVt {
+            reg: |t| t.register::<T>(),
+            reg_bad: |t| t.register::<T>(),
+            insert: |w| w.insert(T::default()),
+            get: |t, w| {
+                let g = w.try_fetch::<T>()?;
+                let typed: &T = &g;
+                let addr = typed as *const T as usize;
+                let r: &dyn Resource = typed;
+                Some(t.get(r).map(|o| (o.btag2(), o.baddr() == addr && (o as *const dyn BObj as *const u8 as usize) == addr)))
+            },
+            get_mut: |t, w| {
+                let mut g = w.try_fetch_mut::<T>()?;
+                let typed: &mut T = &mut g;
+                let addr = typed as *mut T as usize;
+                let r: &mut dyn Resource = typed;
+                Some(t.get_mut(r).map(|o| {
+                    o.bump();
+                    (o.btag2(), o.baddr() == addr)
+                }))
+            },
+            bad_get: |t, w| {
+                let g = w.try_fetch::<T>()?;
+                let typed: &T = &g;
+                let r: &dyn Resource = typed;
+                Some(t.get(r).is_some())
+            },
+        }
+    }
+
+    pub fn table() -> Vec<TyVt> {
+        vec![
+            vt::<M0>(), vt::<M1>(), vt::<M2>(), vt::<M3>(), vt::<M4>(), vt::<M5>(), vt::<M6>(), vt::<M7>(), vt::<M8>(), vt::<M9>(),
+            vt::<M10>(), vt::<M11>(), vt::<M12>(), vt::<M13>(), vt::<M14>(), vt::<M15>(), vt::<M16>(), vt::<M17>(), vt::<M18>(), vt::<M19>(),
+            vt::<M20>(), vt::<M21>(), vt::<M22>(), vt::<M23>(), vt::<MZ>(),
+        ]
+    }
+
+    #[derive(Clone, Debug, Serialize, Deserialize, PartialEq)]
+    pub struct BigScen {
+        pub reg: Vec<u8>,
+        pub present: Vec<bool>,
+    }
+
+    pub fn gen(seed: u64) -> BigScen {
+        let mut rng = Rng::sub(seed, 27);
+        let n = 25;
+        let nreg = rng.below(60) as usize;
+        let mut reg = Vec::new();
+        let wide = rng.chance(1, 2);
+        for _ in 0..nreg {
+            if !reg.is_empty() && rng.chance(1, 5) {
+                let x = *rng.pick(&reg);
+                reg.push(x);
+            } else {
+                reg.push(rng.below(if wide { n } else { 9 }) as u8);
+            }
+        }
+        BigScen { reg, present: (0..n).map(|_| rng.chance(3, 4)).collect() }
+    }
+
+    pub fn run(sc: &BigScen) -> (Vec<Violation>, u64) {
+        let tys = table();
+        let mut out = Vec::new();
+        let mut checks = 0u64;
+        let mut t: MetaTable<dyn BObj> = MetaTable::new();
+        let mut bad: MetaTable<dyn BBad> = MetaTable::new();
+        let mut w = World::empty();
+        for (i, p) in sc.present.iter().enumerate() {
+            if *p && i < tys.len() {
+                (tys[i].insert)(&mut w);
+            }
+        }
+        // registrations interleaved with queries: the reference list grows with them
+        let mut order: Vec<u8> = Vec::new();
+        let mut check_all = |t: &MetaTable<dyn BObj>, bad: &MetaTable<dyn BBad>, order: &[u8], when: usize, out: &mut Vec<Violation>| {
+            for (i, ty) in tys.iter().enumerate() {
+                let registered = order.contains(&(i as u8));
+                for (which, f) in [("get", ty.get), ("get_mut", ty.get_mut)] {
+                    checks += 1;
+                    match catch_unwind(AssertUnwindSafe(|| f(t, &w))) {
+                        Err(p) => out.push(vio("C17", "get-panicked", format!("after {} registrations: {} on type {} panicked: {}", when, which, i, crate::util::payload_string(&p).lines().next().unwrap_or("")))),
+                        Ok(None) => {}
+                        Ok(Some(r)) => {
+                            if r.is_some() != registered {
+                                out.push(vio("C17", "get-registration", format!("after {} registrations ({} distinct types): {} returned Some={} for type {}, registered={}", when, order.len(), which, r.is_some(), i, registered)));
+                            } else if let Some((tag, same)) = r {
+                                if tag != i as u8 || !same {
+                                    out.push(vio("C17", "get-wrong-object", format!("after {} registrations: {} on a resource of type {} returned an object reporting type {} (same address: {})", when, which, i, tag, same)));
+                                }
+                            }
+                        }
+                    }
+                }
+                if registered && sc.present.get(i).copied().unwrap_or(false) {
+                    checks += 1;
+                    match catch_unwind(AssertUnwindSafe(|| (ty.bad_get)(bad, &w))) {
+                        Err(p) => {
+                            let m = crate::util::payload_string(&p);
+                            if !m.contains("did not cast") {
+                                out.push(vio("C17", "bad-cast-wrong-panic", format!("type {}: {}", i, m.lines().next().unwrap_or(""))));
+                            }
+                        }
+                        Ok(_) => out.push(vio("C17", "bad-cast-accepted", format!("after {} registrations: a cast implementation that changes the address was not rejected for type {}{}", when, i, if i == 24 { " (zero-sized)" } else { "" }))),
+                    }
+                }
+            }
+            let want: Vec<u8> = order.iter().copied().filter(|&x| sc.present.get(x as usize).copied().unwrap_or(false)).collect();
+            checks += 2;
+            match catch_unwind(AssertUnwindSafe(|| t.iter(&w).map(|o| o.btag2()).collect::<Vec<u8>>())) {
+                Ok(got) if got == want => {}
+                Ok(got) => out.push(vio("C17", "iter-sequence", format!("after {} registrations: iter yields types {:?}, the reference list (first-registration order, once each, present only) {:?}", when, got, want))),
+                Err(p) => out.push(vio("C17", "iter-panicked", crate::util::payload_string(&p))),
+            }
+            match catch_unwind(AssertUnwindSafe(|| t.iter_mut(&w).map(|mut o| { o.bump(); o.btag2() }).collect::<Vec<u8>>())) {
+                Ok(got) if got == want => {}
+                Ok(got) => out.push(vio("C17", "iter-sequence", format!("after {} registrations: iter_mut yields types {:?}, the reference list {:?}", when, got, want))),
+                Err(p) => out.push(vio("C17", "iter-panicked", crate::util::payload_string(&p))),
+            }
+        };
+        let every = (sc.reg.len() / 4).max(1);
+        for (k, &ty) in sc.reg.iter().enumerate() {
+            let i = ty as usize % tys.len();
+            (tys[i].reg)(&mut t);
+            (tys[i].reg_bad)(&mut bad);
+            if !order.contains(&(i as u8)) {
+                order.push(i as u8);
+            }
+            if (k + 1) % every == 0 && out.is_empty() {
+                check_all(&t, &bad, &order, k + 1, &mut out);
+            }
+        }
+        if out.is_empty() {
+            check_all(&t, &bad, &order, sc.reg.len(), &mut out);
+        }
+        out.truncate(4);
+        (out, checks)
+    }
 }
